@@ -505,6 +505,7 @@ class Interp:
             v.hi_slack = it.hi_slack
             v.step = step
             v.lo, v.hi = a, b
+            v.single_part = self.single_part(a, b)
             return [v], True
         if isinstance(it, EnumV):
             inner, _ = self.iter_values(it.inner, s)
@@ -718,7 +719,7 @@ class Interp:
                 if isinstance(op, ast.Add) or (isinstance(op, ast.Sub) and not swapped):
                     d = y.v if isinstance(op, ast.Add) else -y.v
                     r = Idx(x.level, x.base, None if x.parity is None else (x.parity + d) % 2, x.origin, x.delta + d)
-                    for at in ('hi_slack', 'step', 'lo', 'hi', 'count_of', 'top'):
+                    for at in ('hi_slack', 'step', 'lo', 'hi', 'count_of', 'top', 'single_part'):
                         if hasattr(x, at):
                             setattr(r, at, getattr(x, at))
                     return r
@@ -1067,7 +1068,31 @@ class Interp:
             return Idx(base.level, 'win', None)
         return TOP
 
+    @staticmethod
+    def single_part(a, b):
+        """Is [a, b) the coordinate range of ONE innermost part?  True / False / None (unknown)."""
+        if not (isinstance(a, Idx) and isinstance(b, Idx)):
+            return None
+        oa, ob = a.origin, b.origin
+        if not (isinstance(oa, tuple) and isinstance(ob, tuple) and oa[0] == 'off' and ob[0] == 'off' and oa[1] == ob[1]):
+            return None
+        ia, da, ra = oa[2], oa[3], oa[4]
+        ib, db, rb = ob[2], ob[3], ob[4]
+        if ia == ib and ia not in ('c', None):
+            if ra == rb and isinstance(da, int) and isinstance(db, int):
+                return db == da + 1
+            if ra == 'start' and rb == 'stop':
+                return da == db
+            return None
+        if isinstance(ia, tuple) and isinstance(ib, tuple):
+            # the two lookups in the innermost offsets use different part indices (e.g. first ring .. one past the last ring of a polygon)
+            return False
+        return None
+
     def check_slack(self, i, node):
+        if i.origin is not None and isinstance(i.origin, tuple) and i.origin[0] == 'loop' and getattr(i, 'single_part', None) is False and i.delta >= 2:
+            self.err('range', node, f'vertex at loop index +{i.delta} is paired with the vertex at the loop index, but the loop runs over several rings/lines of the element: '
+                                    f'the last vertex of one part is joined to the first vertex of the next (phantom segment)')
         if i.origin is not None and isinstance(i.origin, tuple) and i.origin[0] == 'loop' and getattr(i, 'step', None):
             if i.delta > i.hi_slack + i.step - 1:
                 self.err('range', node, f'read at loop index +{i.delta} although the loop stops only {i.hi_slack} before the end of the part (step {i.step}): '
